@@ -1169,7 +1169,11 @@ class PDFPageInterpreter:
 
     def do_EI(self, obj: PDFStackT) -> None:
         """End inline image object"""
-        if isinstance(obj, PDFStream) and "W" in obj and "H" in obj:
+        if (
+            isinstance(obj, PDFStream)
+            and obj.get_any(("W", "Width")) is not None
+            and obj.get_any(("H", "Height")) is not None
+        ):
             iobjid = str(id(obj))
             self.device.begin_figure(iobjid, (0, 0, 1, 1), MATRIX_IDENTITY)
             self.device.render_image(iobjid, obj)
@@ -1219,6 +1223,9 @@ class PDFPageInterpreter:
     def process_page(self, page: PDFPage) -> None:
         log.debug("Processing page: %r", page)
         (x0, y0, x1, y1) = page.mediabox
+        # A rectangle may be given by any two diagonally opposite corners.
+        (x0, x1) = (min(x0, x1), max(x0, x1))
+        (y0, y1) = (min(y0, y1), max(y0, y1))
         if page.rotate == 90:
             ctm = (0, -1, 1, 0, -y0, x1)
         elif page.rotate == 180:
